@@ -3,8 +3,11 @@
 specs  PyDispatch.tla (+ PyDispatchMC: enumeration, + PyDispatchEval: evaluation of chosen sets)
        PyObjects.tla  (+ PyObjectsMC), PyObjectsH.tla (+ PyObjectsHMC)
 
-dispatch  TLC enumerates overload sets step by step (parameter-category tuples, trailing defaults,
-          const methods, methods / static functions) and checks on EVERY call tuple of every set that
+dispatch  TLC enumerates overload sets step by step (parameter-category tuples over arithmetic types,
+          strings and the class chain A <- B <- D, trailing defaults, const methods, methods / static
+          functions, parameters named alike or differently per overload) and checks on EVERY call
+          tuple of every set -- positional, and with arguments passed by keyword (right name, a
+          sibling overload's name, a duplicate of a positional, an unknown name) -- that
           the transcribed mechanism (map_sets, collapse_default_remaps, count switch,
           RemapCompareLess order with every admissible tie-break, three-phase parameter extraction,
           error clearing) gives the reference result (C++ overload resolution on the corresponding
@@ -16,6 +19,8 @@ dispatch  TLC enumerates overload sets step by step (parameter-category tuples, 
           (interrogate -python-native -> interrogate_module -> g++), harness/c02_driver.py performs
           the calls in a child interpreter and reports: overload log, return value, exception type,
           reference-count deltas of the arguments, live-instance counters, ownership bits.
+          Sets alternate between two families of class names (base < mid < leaf and leaf < mid <
+          base alphabetically; the second declares its overloads in reverse order).
           The same calls are compiled natively (SFINAE "callable?" + run) to validate CppSelect:
           spec != g++ => MachineryError.
 objects   TLC enumerates call histories over a class Node (construct, return by value / borrowed /
@@ -49,15 +54,32 @@ STR = "aéz"
 CTYPE = {"i8": "signed char", "u8": "unsigned char", "i16": "short", "u16": "unsigned short", "i32": "int",
          "u32": "unsigned int", "il": "long", "ul": "unsigned long", "i64": "long long", "u64": "unsigned long long",
          "f32": "float", "f64": "double", "bool": "bool", "str": "const std::string &",
-         "rA": "A &", "cA": "const A &", "rB": "B &", "cB": "const B &"}
-INTCATS = ("i8", "u8", "i16", "u16", "i32", "u32", "il", "ul", "i64", "u64")
-DEFAULT = {"f32": "1.5f", "f64": "1.5", "bool": "true", "str": '"dflt"', "rA": "g_a", "cA": "A::cref()",
-           "rB": "g_b", "cB": "B::cref()"}
-DEFLOG = {"f32": "1.5", "f64": "1.5", "bool": "T", "str": "dflt", "rA": "A#{A_gref}", "cA": "A#{A_cref}",
-          "rB": "B#{B_gref}", "cB": "B#{B_cref}"}
-CLASSES = ["A", "B", "D", "C"]          # Probe::live(k) index
+         "rA": "A &", "cA": "const A &", "rB": "B &", "cB": "const B &", "rD": "D &", "cD": "const D &"}
+# two families of the class chain base <- mid <- leaf (+ one unrelated class): in family 0 the names
+# sort base < mid < leaf, in family 1 leaf < mid < base; sets alternate between them, and family 1
+# declares its overloads in reverse order (ties of the sort order must not decide anything)
+FAMILY = [dict(A="A", B="B", D="D", C="C"), dict(A="Zed", B="Mid", D="Alf", C="Cee")]
+INSTCATS = ("rA", "cA", "rB", "cB", "rD", "cD")
 
-COMMON_H = r'''
+
+def ctype(c, fam):
+    t = CTYPE[c]
+    if c in INSTCATS:
+        return t.replace(c[1], FAMILY[fam][c[1]])
+    return t
+
+
+def param_name(nm, j, i):
+    """parameter i (0-based) of overload j (1-based) under the naming mode of the set (PyDispatch NameOf)"""
+    return ("xy" if nm == "alt" and j % 2 == 0 else "ab")[i]
+INTCATS = ("i8", "u8", "i16", "u16", "i32", "u32", "il", "ul", "i64", "u64")
+DEFAULT = {"f32": "1.5f", "f64": "1.5", "bool": "true", "str": '"dflt"', "rA": "g_%(A)s", "cA": "%(A)s::cref()",
+           "rB": "g_%(B)s", "cB": "%(B)s::cref()", "rD": "g_%(D)s", "cD": "%(D)s::cref()"}
+DEFLOG = {"f32": "1.5", "f64": "1.5", "bool": "T", "str": "dflt", "rA": "A#{A_gref}", "cA": "A#{A_cref}",
+          "rB": "B#{B_gref}", "cB": "B#{B_cref}", "rD": "D#{D_gref}", "cD": "D#{D_cref}"}
+CLASSES = ["A", "B", "D", "C"]          # Probe::live(k + 4 * family) index
+
+PROBE_H = r'''
 #include <string>
 class Probe {
 PUBLISHED:
@@ -67,36 +89,41 @@ public:
   static void log(const std::string &s);
   static int counts[8];
 };
-class A {
-PUBLISHED:
-  A(); A(const A &o); virtual ~A();
-  int get_id() const;
-  static const A &cref();
-  static A &gref();
-public:
-  int _id;
-};
-class B : public A {
-PUBLISHED:
-  B(); B(const B &o); virtual ~B();
-  static const B &cref();
-  static B &gref();
-};
-class D : public B {
-PUBLISHED:
-  D(); D(const D &o); virtual ~D();
-};
-extern A g_a;
-extern B g_b;
-class C {
-PUBLISHED:
-  C(); C(const C &o); ~C();
-  int get_id() const;
-public:
-  int _id;
-};
 '''
-COMMON_CXX = r'''
+FAMILY_H = r'''
+class %(A)s {
+PUBLISHED:
+  %(A)s(); %(A)s(const %(A)s &o); virtual ~%(A)s();
+  int get_id() const;
+  static const %(A)s &cref();
+  static %(A)s &gref();
+public:
+  int _id;
+};
+class %(B)s : public %(A)s {
+PUBLISHED:
+  %(B)s(); %(B)s(const %(B)s &o); virtual ~%(B)s();
+  static const %(B)s &cref();
+  static %(B)s &gref();
+};
+class %(D)s : public %(B)s {
+PUBLISHED:
+  %(D)s(); %(D)s(const %(D)s &o); virtual ~%(D)s();
+  static const %(D)s &cref();
+  static %(D)s &gref();
+};
+class %(C)s {
+PUBLISHED:
+  %(C)s(); %(C)s(const %(C)s &o); ~%(C)s();
+  int get_id() const;
+public:
+  int _id;
+};
+extern %(A)s g_%(A)s;
+extern %(B)s g_%(B)s;
+extern %(D)s g_%(D)s;
+'''
+PROBE_CXX = r'''
 #include <vector>
 #include <cstdio>
 #include <type_traits>
@@ -106,73 +133,90 @@ static int next_id = 1;
 void Probe::log(const std::string &s) { the_log += s; the_log += ";"; }
 std::string Probe::take_log() { std::string r = the_log; the_log.clear(); return r; }
 int Probe::live(int k) { return counts[k]; }
-A::A() : _id(next_id++) { ++Probe::counts[0]; }
-A::A(const A &o) : _id(next_id++) { ++Probe::counts[0]; }
-A::~A() { --Probe::counts[0]; }
-int A::get_id() const { return _id; }
-const A &A::cref() { static A x; return x; }
-A g_a;
-B g_b;
-A &A::gref() { return g_a; }
-B::B() { ++Probe::counts[1]; }
-B::B(const B &o) : A(o) { ++Probe::counts[1]; }
-B::~B() { --Probe::counts[1]; }
-const B &B::cref() { static B x; return x; }
-B &B::gref() { return g_b; }
-D::D() { ++Probe::counts[2]; }
-D::D(const D &o) : B(o) { ++Probe::counts[2]; }
-D::~D() { --Probe::counts[2]; }
-C::C() : _id(next_id++) { ++Probe::counts[3]; }
-C::C(const C &o) : _id(next_id++) { ++Probe::counts[3]; }
-C::~C() { --Probe::counts[3]; }
-int C::get_id() const { return _id; }
 static std::string to_s(bool v) { return v ? "T" : "F"; }
 static std::string to_s(double v) { char b[64]; snprintf(b, sizeof b, "%.17g", v); return b; }
 static std::string to_s(float v) { return to_s((double)v); }
 static std::string to_s(const std::string &v) { return v; }
-static std::string to_s(const A &v) { return "A#" + std::to_string(v._id); }
-static std::string to_s(const B &v) { return "B#" + std::to_string(v._id); }
 template<class T, class = typename std::enable_if<std::is_integral<T>::value>::type>
 static std::string to_s(T v) {
   if (std::is_signed<T>::value) return std::to_string((long long)v);
   return std::to_string((unsigned long long)v);
 }
 '''
+FAMILY_CXX = r'''
+%(A)s g_%(A)s;
+%(B)s g_%(B)s;
+%(D)s g_%(D)s;
+%(A)s::%(A)s() : _id(next_id++) { ++Probe::counts[%(k)d]; }
+%(A)s::%(A)s(const %(A)s &o) : _id(next_id++) { ++Probe::counts[%(k)d]; }
+%(A)s::~%(A)s() { --Probe::counts[%(k)d]; }
+int %(A)s::get_id() const { return _id; }
+const %(A)s &%(A)s::cref() { static %(A)s x; return x; }
+%(A)s &%(A)s::gref() { return g_%(A)s; }
+%(B)s::%(B)s() { ++Probe::counts[%(k)d + 1]; }
+%(B)s::%(B)s(const %(B)s &o) : %(A)s(o) { ++Probe::counts[%(k)d + 1]; }
+%(B)s::~%(B)s() { --Probe::counts[%(k)d + 1]; }
+const %(B)s &%(B)s::cref() { static %(B)s x; return x; }
+%(B)s &%(B)s::gref() { return g_%(B)s; }
+%(D)s::%(D)s() { ++Probe::counts[%(k)d + 2]; }
+%(D)s::%(D)s(const %(D)s &o) : %(B)s(o) { ++Probe::counts[%(k)d + 2]; }
+%(D)s::~%(D)s() { --Probe::counts[%(k)d + 2]; }
+const %(D)s &%(D)s::cref() { static %(D)s x; return x; }
+%(D)s &%(D)s::gref() { return g_%(D)s; }
+%(C)s::%(C)s() : _id(next_id++) { ++Probe::counts[%(k)d + 3]; }
+%(C)s::%(C)s(const %(C)s &o) : _id(next_id++) { ++Probe::counts[%(k)d + 3]; }
+%(C)s::~%(C)s() { --Probe::counts[%(k)d + 3]; }
+int %(C)s::get_id() const { return _id; }
+// the logged text names the LOGICAL class of the parameter's static type
+static std::string to_s(const %(A)s &v) { return "A#" + std::to_string(v._id); }
+static std::string to_s(const %(B)s &v) { return "B#" + std::to_string(v._id); }
+static std::string to_s(const %(D)s &v) { return "D#" + std::to_string(v._id); }
+'''
+COMMON_H = PROBE_H + "".join(FAMILY_H % f for f in FAMILY)
+COMMON_CXX = PROBE_CXX + "".join(FAMILY_CXX % dict(f, k=4 * n) for n, f in enumerate(FAMILY))
+
+
+def fam_of(sid):
+    return sid % 2
 
 
 def ret_type(o):
-    if o["p"] and o["p"][0] in CTYPE and not o["p"][0].startswith(("r", "c")):
+    if o["p"] and o["p"][0] in CTYPE and o["p"][0] not in INSTCATS:
         c = o["p"][0]
         return "std::string" if c == "str" else CTYPE[c]
     return "int"
 
 
 def render_sets(sets):
-    """sets: list of (id, rec) with rec = {kind, ov:[{p,d,k}]}.  Returns (header text, source text)."""
+    """sets: list of (id, rec) with rec = {kind, nm, ov:[{p,d,k}]}.  Returns (header text, source text)."""
     H, X = [], []
     for sid, rec in sets:
         cn = "S%d" % sid
+        fam = fam_of(sid)
         static = rec["kind"] == "static"
         H.append("class %s {\nPUBLISHED:\n  %s();\n  static const %s &cref();" % (cn, cn, cn))
         X.append("%s::%s() {}\nconst %s &%s::cref() { static %s x; return x; }" % (cn, cn, cn, cn, cn))
+        decls = []
         for j, o in enumerate(rec["ov"], 1):
             ps, names = [], []
             np = len(o["p"])
             for i, c in enumerate(o["p"]):
-                nm = "ab"[i]
+                nm = param_name(rec["nm"], j, i)
                 names.append(nm)
                 dflt = ""
                 if i >= np - o["d"]:
-                    dflt = " = " + DEFAULT.get(c, "7")
-                ps.append((CTYPE[c], nm, dflt))
+                    dflt = " = " + (DEFAULT.get(c, "7") % FAMILY[fam] if c in DEFAULT else "7")
+                ps.append((ctype(c, fam), nm, dflt))
             rt = ret_type(o)
-            H.append("  %s%s f(%s)%s;" % ("static " if static else "", rt,
-                                          ", ".join("%s %s%s" % (t, n, d) for t, n, d in ps),
-                                          " const" if o["k"] else ""))
+            decls.append("  %s%s f(%s)%s;" % ("static " if static else "", rt,
+                                              ", ".join("%s %s%s" % (t, n, d) for t, n, d in ps),
+                                              " const" if o["k"] else ""))
             logx = ' + "," + '.join("to_s(%s)" % n for n in names) if names else 'std::string()'
-            body = 'Probe::log(std::string("%d.%d(") + %s + ")"); return %s;' % (sid, j, logx, ("a" if rt != "int" or (o["p"] and o["p"][0] == "i32") else str(j)))
+            body = 'Probe::log(std::string("%d.%d(") + %s + ")"); return %s;' % (
+                sid, j, logx, (names[0] if rt != "int" or (o["p"] and o["p"][0] == "i32") else str(j)))
             X.append("%s %s::f(%s)%s { %s }" % (rt, cn, ", ".join("%s %s" % (t, n) for t, n, d in ps),
                                                 " const" if o["k"] else "", body))
+        H += decls if fam == 0 else decls[::-1]      # declaration order must not matter
         H.append("};")
     return "\n".join(H) + "\n", "\n".join(X) + "\n"
 
@@ -206,7 +250,7 @@ def expected_ret(j, o, argtoks):
     if not o["p"]:
         return j
     c = o["p"][0]
-    if c in ("rA", "cA", "rB", "cB"):
+    if c in INSTCATS:
         return j
     if argtoks:
         t = argtoks[0]
@@ -247,7 +291,7 @@ def cpp_int(v):
     return "%dLL" % v if v < 2**63 else "%dULL" % v
 
 
-def cpp_arg(tok, ct):
+def cpp_arg(tok, ct, fam=0):
     """C++ expression of the argument type the spec assigned (ct), or None when C++ has no such argument"""
     t = tok[0]
     if t == "int":
@@ -255,15 +299,17 @@ def cpp_arg(tok, ct):
         if lit is None or ct not in CTYPE or ct not in INTCATS:
             return None
         return "(%s)(%s)" % (CTYPE[ct], lit)
-    return {"bool": "true", "float": "2.5", "str": 'std::string("a\\xc3\\xa9z")', "iA": "a_obj", "iB": "b_obj",
-            "iD": "d_obj", "iC": "c_obj", "kA": "ka_obj", "kB": "kb_obj"}.get(t)
+    return {"bool": "true", "float": "2.5", "str": 'std::string("a\\xc3\\xa9z")', "iA": "a_obj%d" % fam, "iB": "b_obj%d" % fam,
+            "iD": "d_obj%d" % fam, "iC": "c_obj%d" % fam, "kA": "ka_obj%d" % fam, "kB": "kb_obj%d" % fam}.get(t)
 
 
 def native_program(hdr, src, sets, picks):
     """picks: {sid: [call index]}: the calls compiled natively"""
     L = ['#include "%s"' % hdr, '#include "%s"' % src, NATIVE_PRE, "int main() {",
-         "  A a_obj; B b_obj; D d_obj; C c_obj; const A &ka_obj = A::cref(); const B &kb_obj = B::cref();",
          "  Probe::take_log();"]
+    for n, f in enumerate(FAMILY):
+        L.append("  %(A)s a_obj%(n)d; %(B)s b_obj%(n)d; %(D)s d_obj%(n)d; %(C)s c_obj%(n)d; const %(A)s &ka_obj%(n)d = %(A)s::cref(); "
+                 "const %(B)s &kb_obj%(n)d = %(B)s::cref();" % dict(f, n=n))
     n_lines = 0
     for sid, rec in sets:
         static = rec["kind"] == "static"
@@ -271,7 +317,9 @@ def native_program(hdr, src, sets, picks):
             L.append("  S%d s%d; const S%d &k%d = S%d::cref();" % (sid, sid, sid, sid, sid))
         for n in picks.get(sid, ()):
             call = rec["calls"][n]
-            exprs = [cpp_arg(tok, ct) for tok, ct in zip(toks(call), call["ct"])]
+            if any(call["kw"]):          # keyword arguments have no C++ counterpart
+                continue
+            exprs = [cpp_arg(tok, ct, fam_of(sid)) for tok, ct in zip(toks(call), call["ct"])]
             if any(e is None for e in exprs):
                 continue
             if static:
@@ -337,13 +385,13 @@ def dispatch_batch(args):
         return res
     res["t_build"] = time.time() - t0
     script = dict(module=name, mode="dispatch", nclasses=len(CLASSES),
-                  sets=[dict(id=sid, kind=rec["kind"], calls=[[c["self"], toks(c)] for c in rec["calls"]])
+                  sets=[dict(id=sid, kind=rec["kind"], fam=fam_of(sid), calls=[[c["self"], toks(c), c["kw"]] for c in rec["calls"]])
                         for sid, rec in sets])
     json.dump(script, open(os.path.join(wd, "script.json"), "w"))
     recs, rc, err = run_driver(wd, os.path.join(wd, "script.json"), os.path.join(wd, "out.ndjson"), asan=asan)
     res["rc"], res["stderr"] = rc, err
     res["obs"] = {(r["s"], r["c"]): r for r in recs if "s" in r}
-    res["ids"] = next((r["ids"] for r in recs if "ids" in r), None)
+    res["ids"] = next((r["ids"] for r in recs if "ids" in r), None)      # per family
     res["last_at"] = next((r["at"] for r in reversed(recs) if "at" in r), None)
     res["finished"] = any("done" in r for r in recs)
     # native sanity
@@ -386,11 +434,11 @@ def eval_sets(ctx_tmp, sets, tag="eval", workers=6):
     if os.path.exists(dump):
         os.unlink(dump)
     res = tlc.run("PyDispatchEval", "PyDispatch_eval", workers=workers, env=dict(fix_env(), VERIF_SETS=sel, VERIF_DUMP=dump), timeout=1500)
-    out = [dict(kind=s["kind"], ov=s["ov"], calls=[]) for s in sets]
+    out = [dict(kind=s["kind"], nm=s["nm"], ov=s["ov"], calls=[]) for s in sets]
     for r in tlc.read_dump(dump):
         out[r.pop("s") - 1]["calls"].append(r)
     for o in out:      # TLC may evaluate the constraint of a state more than once
-        uniq = {json.dumps([c["self"], c["a"]], sort_keys=True): c for c in o["calls"]}
+        uniq = {json.dumps([c["self"], c["a"], c["kw"]], sort_keys=True): c for c in o["calls"]}
         o["calls"] = [uniq[k] for k in sorted(uniq)]
     return res, out
 
@@ -413,7 +461,7 @@ def judge_call(sid, rec, call, o, ids):
     bad = []
     kind, j = observed_kind(o)
     e = call["e"]
-    argt = toks(call)
+    argt = [[a["t"], a["v"]] for a in call["pa"]]          # by position, after binding the keywords
     heap_changed = any(o["dlive"]) or any(o["drc"]) or "own_changed" in o
     if e == "run":
         if (kind, j) != ("run", call["j"]):
@@ -802,7 +850,35 @@ def names_library():
                        "m.%s.static_method(4)" % pyc: "8", "m.%s.staticMethod(4)" % pyc: "8",
                        "(lambda o: (setattr(o, 'value', 31), o.get_value()))(%s)[1]" % o: "31",
                        "(lambda o: (o.__iadd__(4), o.value))(%s)[1]" % o: repr(ci + 4)})
+    # comparison through compare_to, through operator == / <, and char return values
+    H += ["class Ver {\nPUBLISHED:\n  explicit Ver(int v);\n  int compare_to(const Ver &o) const;\n  char get_char(int i) const;",
+          "  unsigned char get_uchar(int i) const;\n  signed char get_schar(int i) const;\npublic:\n  int _v;\n};",
+          "class Eq {\nPUBLISHED:\n  explicit Eq(int v);\n  bool operator == (const Eq &o) const;\n  bool operator < (const Eq &o) const;\npublic:\n  int _v;\n};"]
+    X += ["Ver::Ver(int v) : _v(v) {}", "int Ver::compare_to(const Ver &o) const { return _v < o._v ? -1 : (_v > o._v ? 1 : 0); }",
+          "char Ver::get_char(int i) const { return (char)i; }", "unsigned char Ver::get_uchar(int i) const { return (unsigned char)i; }",
+          "signed char Ver::get_schar(int i) const { return (signed char)i; }", "Eq::Eq(int v) : _v(v) {}",
+          "bool Eq::operator == (const Eq &o) const { return _v == o._v; }", "bool Eq::operator < (const Eq &o) const { return _v < o._v; }"]
+    exp[""].update(["Ver", "Eq"])
+    exp["Ver"] = {"compare_to", "compareTo", "get_char", "getChar", "get_uchar", "getUchar", "get_schar", "getSchar", "__copy__", "__deepcopy__"}
+    exp["Eq"] = {"__copy__", "__deepcopy__"}
+    ev.update({"m.Ver(5) < m.Ver(6)": "True", "m.Ver(5) >= m.Ver(6)": "False", "m.Ver(5) == m.Ver(5)": "True", "m.Ver(5) != m.Ver(5)": "False",
+               "m.Ver(7).compare_to(m.Ver(5))": "1", "m.Ver(5) == 'x'": "False", "m.Ver(5) != 'x'": "True",
+               "m.Eq(5) == m.Eq(5)": "True", "m.Eq(5) != m.Eq(6)": "True", "m.Eq(5) < m.Eq(6)": "True", "m.Eq(6) > m.Eq(5)": "True",
+               "m.Eq(5) == 'x'": "False", "m.Eq(5) != None": "True", "m.Eq(5) < 'x'": "EXC TypeError",
+               "m.Ver(1).get_char(65)": "'A'", "m.Ver(1).get_char(127)": "'\\x7f'", "m.Ver(1).get_uchar(200)": "200",
+               "m.Ver(1).get_schar(-5)": "-5"})
+    # an incomparable right-hand side must not get an ordering answer (NotImplemented -> TypeError)
+    for e in ("m.Ver(5) < 'x'", "m.Ver(5) <= None", "m.Ver(5) > 3.5", "m.Ver(5) >= 'x'"):
+        ev[e] = "EXC TypeError"
+        EVAL_CLASSES[e] = "C02-compare-to-swallows-typeerror"
+    # a char outside ASCII comes back as the one-character string of that code (as it is accepted)
+    for e, v in (("m.Ver(1).get_char(128)", "'\\x80'"), ("m.Ver(1).get_char(233)", "'é'")):
+        ev[e] = v
+        EVAL_CLASSES[e] = "C02-char-return-non-ascii"
     return "\n".join(H) + "\n", "\n".join(X) + "\n", exp, ev
+
+
+EVAL_CLASSES = {}          # expression of the names library -> finding class (the input is the expression)
 
 
 def names_check(work, asan=False):
@@ -836,8 +912,9 @@ def names_check(work, asan=False):
         if got != want:
             bad.append("names of %s: missing %s, unexpected %s" % (scope or "the module", sorted(want - got), sorted(got - want)))
     for expr, want in sorted(ev.items()):
-        if vals.get(expr) != want:
-            bad.append("%s evaluates to %s, expected %s" % (expr, vals.get(expr), want))
+        got = vals.get(expr)
+        if not (got.startswith(want) if want.startswith("EXC ") and got else got == want):
+            bad.append(("%s evaluates to %s, expected %s" % (expr, got, want), expr))
     return bad, n, len(ev)
 
 
@@ -893,34 +970,48 @@ def O(p, d=0, k=False):
 # sets that are always replayed (each anchors one mechanism: the sort ranks, a range check, default
 # collapsing, the count switch, const dispatch, derived-to-base ranking)
 ANCHORS = [
-    dict(kind="method", ov=[O(["i32"]), O(["f64"])]),
-    dict(kind="method", ov=[O(["i32"]), O(["f64"]), O(["str"])]),
-    dict(kind="static", ov=[O(["u8"]), O(["str"])]),
-    dict(kind="method", ov=[O(["u8"])]),
-    dict(kind="method", ov=[O(["u8"], 1)]),
-    dict(kind="method", ov=[O(["i8"]), O(["f32"])]),
-    dict(kind="method", ov=[O(["u16"]), O(["cA"])]),
-    dict(kind="method", ov=[O(["i16", "str"], 1), O(["f64", "cA"], 1)]),
-    dict(kind="method", ov=[O(["i32", "i32"], 1), O(["str"])]),
-    dict(kind="static", ov=[O([]), O(["i32", "f64"], 1), O(["str", "str"])]),
-    dict(kind="method", ov=[O(["cA"]), O(["cB"])]),
-    dict(kind="method", ov=[O(["rA"]), O(["cB"])]),
-    dict(kind="method", ov=[O(["rA", "i32"], 1), O(["rB", "i32"], 1)]),
-    dict(kind="method", ov=[O(["i32"]), O(["i32"], 0, True)]),
-    dict(kind="method", ov=[O(["i32"], 1), O(["f64"], 1, True)]),
-    dict(kind="method", ov=[O(["str"], 0, True), O(["rA"])]),
-    dict(kind="method", ov=[O(["u32"]), O(["f64"])]),
-    dict(kind="method", ov=[O(["i64"]), O(["str"])]),
-    dict(kind="method", ov=[O(["u64", "str"]), O(["f64", "f64"])]),
-    dict(kind="static", ov=[O(["il"]), O(["bool", "bool"])]),
-    dict(kind="method", ov=[O(["ul"], 1), O(["cB", "str"], 1)]),
-    dict(kind="method", ov=[O(["f32", "bool"], 1)]),
-    dict(kind="method", ov=[O(["bool"]), O(["str", "i8"])]),
+    dict(kind="method", nm="same", ov=[O(["i32"]), O(["f64"])]),
+    dict(kind="method", nm="same", ov=[O(["i32"]), O(["f64"]), O(["str"])]),
+    dict(kind="static", nm="same", ov=[O(["u8"]), O(["str"])]),
+    dict(kind="method", nm="same", ov=[O(["u8"])]),
+    dict(kind="method", nm="same", ov=[O(["u8"], 1)]),
+    dict(kind="method", nm="same", ov=[O(["i8"]), O(["f32"])]),
+    dict(kind="method", nm="same", ov=[O(["u16"]), O(["cA"])]),
+    dict(kind="method", nm="same", ov=[O(["i16", "str"], 1), O(["f64", "cA"], 1)]),
+    dict(kind="method", nm="same", ov=[O(["i32", "i32"], 1), O(["str"])]),
+    dict(kind="static", nm="same", ov=[O([]), O(["i32", "f64"], 1), O(["str", "str"])]),
+    dict(kind="method", nm="same", ov=[O(["cA"]), O(["cB"])]),
+    dict(kind="method", nm="same", ov=[O(["rA"]), O(["cB"])]),
+    dict(kind="method", nm="same", ov=[O(["rA", "i32"], 1), O(["rB", "i32"], 1)]),
+    dict(kind="method", nm="same", ov=[O(["i32"]), O(["i32"], 0, True)]),
+    dict(kind="method", nm="same", ov=[O(["i32"], 1), O(["f64"], 1, True)]),
+    dict(kind="method", nm="same", ov=[O(["str"], 0, True), O(["rA"])]),
+    dict(kind="method", nm="same", ov=[O(["u32"]), O(["f64"])]),
+    dict(kind="method", nm="same", ov=[O(["i64"]), O(["str"])]),
+    dict(kind="method", nm="same", ov=[O(["u64", "str"]), O(["f64", "f64"])]),
+    dict(kind="static", nm="same", ov=[O(["il"]), O(["bool", "bool"])]),
+    dict(kind="method", nm="same", ov=[O(["ul"], 1), O(["cB", "str"], 1)]),
+    dict(kind="method", nm="same", ov=[O(["f32", "bool"], 1)]),
+    dict(kind="method", nm="same", ov=[O(["bool"]), O(["str", "i8"])]),
+    # the three-level chain A <- B <- D (each twice: once per class-name family / declaration order)
+    dict(kind="method", nm="same", ov=[O(["cB"]), O(["cD"])]),
+    dict(kind="static", nm="alt", ov=[O(["cB"]), O(["cD"])]),
+    dict(kind="method", nm="same", ov=[O(["cA"]), O(["cB"]), O(["cD"])]),
+    dict(kind="static", nm="alt", ov=[O(["cA"]), O(["cB"]), O(["cD"])]),
+    dict(kind="method", nm="alt", ov=[O(["rB", "i32"], 1), O(["rD", "i32"], 1)]),
+    dict(kind="static", nm="same", ov=[O(["rB", "i32"], 1), O(["rD", "i32"], 1)]),
+    dict(kind="static", nm="same", ov=[O(["rA"]), O(["rD"])]),
+    dict(kind="method", nm="alt", ov=[O(["rA"]), O(["rD"])]),
+    # keyword-capable functions with a one-parameter overload taking an instance
+    dict(kind="method", nm="same", ov=[O(["cA"]), O(["i32", "str"])]),
+    dict(kind="static", nm="alt", ov=[O(["cA"]), O(["i32", "str"])]),
+    dict(kind="method", nm="alt", ov=[O(["rB"]), O(["cA", "f64"], 1)]),
+    dict(kind="static", nm="same", ov=[O(["cB"], 1), O(["str", "bool"])]),
 ]
 
 
 def set_key(s):
-    return json.dumps(dict(kind=s["kind"], ov=s["ov"]), sort_keys=True)
+    return json.dumps(dict(kind=s["kind"], nm=s["nm"], ov=s["ov"]), sort_keys=True)
 
 
 def signature(s):
@@ -928,7 +1019,7 @@ def signature(s):
     cats = sorted(set(c for o in s["ov"] for c in o["p"]))
     coarse = sorted(set("int" if c in INTCATS else "flt" if c in ("f32", "f64") else "inst" if c[0] in "rc" and len(c) == 2 else c
                         for c in cats))
-    return (s["kind"], len(s["ov"]), tuple(sorted(len(o["p"]) for o in s["ov"])), any(o["d"] for o in s["ov"]),
+    return (s["kind"], s["nm"], len(s["ov"]), tuple(sorted(len(o["p"]) for o in s["ov"])), any(o["d"] for o in s["ov"]),
             any(o["k"] for o in s["ov"]), tuple(coarse))
 
 
@@ -938,7 +1029,7 @@ def select_sets(dumped, cap):
     seen, out = set(), []
     for s in ANCHORS:
         seen.add(set_key(s))
-        out.append(dict(kind=s["kind"], ov=s["ov"]))
+        out.append(dict(kind=s["kind"], nm=s["nm"], ov=s["ov"]))
     buckets = {}
     for s in sorted(dumped, key=set_key):
         if set_key(s) not in seen:
@@ -972,14 +1063,18 @@ def pick_native(rec, cap):
 
 def show_set(rec):
     return rec["kind"] + " f: " + " | ".join(
-        "(" + ", ".join(CTYPE[c].replace(" &", "&") + (" =dflt" if i >= len(o["p"]) - o["d"] else "") for i, c in enumerate(o["p"])) + ")" +
-        (" const" if o["k"] else "") for o in rec["ov"])
+        "(" + ", ".join(CTYPE[c].replace(" &", "&") + " " + param_name(rec["nm"], j, i) + (" =dflt" if i >= len(o["p"]) - o["d"] else "")
+                        for i, c in enumerate(o["p"])) + ")" +
+        (" const" if o["k"] else "") for j, o in enumerate(rec["ov"], 1))
+
+
+ARG_TEXT = {"float": "2.5", "bool": "True", "str": "'aéz'", "bytes": "b'by'", "none": "None", "wrong": "object()",
+            "iA": "A()", "iB": "B()", "iD": "D()", "iC": "C()", "kA": "A.cref()", "kB": "B.cref()"}
 
 
 def show_call(call):
-    a = ", ".join(str(INTV[x["v"]]) if x["t"] == "int" else
-                  {"float": "2.5", "bool": "True", "str": "'aéz'", "bytes": "b'by'", "none": "None", "wrong": "object()",
-                   "iA": "A()", "iB": "B()", "iD": "D()", "iC": "C()", "kA": "A.cref()", "kB": "B.cref()"}[x["t"]] for x in call["a"])
+    a = ", ".join(((k + "=") if k else "") + (str(INTV[x["v"]]) if x["t"] == "int" else ARG_TEXT[x["t"]])
+                  for k, x in zip(call["kw"], call["a"]))
     return {"nc": "obj", "c": "constobj", "na": "Cls"}[call["self"]] + ".f(" + a + ")"
 
 
@@ -1091,7 +1186,7 @@ def run_check(ctx):
                 n_claim += call["e"] != "none"
                 if call["e"] == "run":
                     distinct.add((set_key(rec), call["self"], json.dumps(call["a"], sort_keys=True)))
-                bad = judge_call(sid, rec, call, o, r["ids"])
+                bad = judge_call(sid, rec, call, o, r["ids"][fam_of(sid)])
                 # class membership (input only): the call is in a syntactic deviation class of the spec AND
                 # the spec's mechanism model, evaluated on the input, does not give the reference result
                 cls = call["dev"] if call["dis"] else []
@@ -1103,10 +1198,10 @@ def run_check(ctx):
                     prec[c][0] += bool(bad)
                 for what, det in bad:
                     ctx.violation("%s ; %s : %s" % (show_set(rec), show_call(call), det),
-                                  dict(set=rec, call={k: call[k] for k in ("a", "self", "e", "j", "ct")}, observed=o,
+                                  dict(set=rec, call={k: call[k] for k in ("a", "kw", "self", "e", "j", "ct")}, observed=o,
                                        stat_key="%s %s->%s %s" % (what, call["e"], observed_kind(o)[0], call["dev"])),
                                   classes=cls)
-                if not model_agrees(call, o):
+                if call["st"] != "gap" and not model_agrees(call, o):
                     model_miss.append("%s ; %s : model %s, observed %s" % (show_set(rec), show_call(call), call["m"], observed_kind(o)))
     # ---- 4. object histories ----------------------------------------------------------------------------
     res, hists = f_obj.result()
@@ -1166,8 +1261,14 @@ def run_check(ctx):
         bad, n_names, n_evals = f_names.result()
     except pymod.PymodError as e:
         bad, n_names, n_evals = ["the names library does not build (%s): %s" % (e.stage, e.detail[-800:])], 0, 0
+    failed_exprs = set(b[1] for b in bad if isinstance(b, tuple))
+    for expr, cid in EVAL_CLASSES.items():
+        prec.setdefault(cid, [0, 0])
+        prec[cid][1] += 1
+        prec[cid][0] += expr in failed_exprs
     for b in bad:
-        ctx.violation("names: " + b, dict(what=b, stat_key="names"))
+        text, expr = b if isinstance(b, tuple) else (b, None)
+        ctx.violation("names: " + text, dict(what=text, stat_key="names"), classes=[EVAL_CLASSES[expr]] if expr in EVAL_CLASSES else [])
     for f in f_probes:
         cid, bad, hdr = f.result()
         prec.setdefault(cid, [0, 0])
@@ -1181,7 +1282,7 @@ def run_check(ctx):
     ctx.cov["traces_validated_against_impl"] = n_calls + n_hist
     ctx.cov["distinct_nontrivial"] = len(distinct) + n_hist
     ctx.cov["exhaustive"] = False
-    ctx.cov["rule"] = ("TLC enumerates every overload set of the configured alphabets (<= 3 overloads x 1 parameter over all 18 "
+    ctx.cov["rule"] = ("TLC enumerates every overload set of the configured alphabets (<= 3 overloads x 1 parameter over all 20 "
                        "parameter categories, <= 2 overloads x 2 parameters and <= 3 x 2 over reduced alphabets; methods, const "
                        "methods, static functions; trailing defaults) and checks PySelect = Expected on every call tuple of "
                        "every set; a fixed stratified selection of the sets is replayed completely on built extension modules; "
